@@ -353,7 +353,7 @@ func checkC18(c *Ctx, r *Report) {
 		},
 	})
 	r2.onlyCallers("call init", []string{initK}, c.FnsOfPkg(wtPkg), wtPkg+".newCertManager")
-	r2.onlyCallers("call background", []string{"(*"+cmT+").background"}, c.FnsOfPkg(wtPkg), wtPkg+".newCertManager")
+	r2.onlyCallers("call background", []string{"(*" + cmT + ").background"}, c.FnsOfPkg(wtPkg), wtPkg+".newCertManager")
 	if f := c.Fn("(*" + cmT + ").background"); f != nil {
 		for _, g := range f.AnonFuncs {
 			lf := computeLockFlow(g, heldSet{})
